@@ -21,7 +21,8 @@ COMMON = ("One case = one runtime instance (acquire_init .. acquire_shutdown) wh
 RULES = {
     "C04": COMMON + "C04 oracle: after acquire_stop of a finite acquisition the storage log equals the camera log (ids 0..N-1, hardware "
            "ids, shape, pixel hash), per stream. Non-trivial = acquisition whose queue wrapped at least once; distinct by (scenario "
-           "class, frame shape, hash of the cross-thread order of channel operations seen by the wrappers).",
+           "class, frame shape, hash of the cross-thread order of channel operations seen by the wrappers). A few cases of the "
+           "abort mix (C07) run under the same oracle: the acquisition that follows an abort must be complete, too.",
     "C05": COMMON + "C05 oracle: every packet given to storage append and every region mapped by the client is walked frame by frame: "
            "8-byte aligned header, size field == align8(header+image bytes), exact chaining to the packet end, shape == the camera's "
            "shape for that frame; the fault scenarios of C09 (camera/storage failing at frame k) run under the same oracle. "
@@ -86,6 +87,10 @@ def run(prop, tier, replay=None):
         # the state clause ("Running only while workers are alive") is also exercised by the fault scenarios
         nf = 6 if tier == "quick" else 120
         plan += [("c09", 500000 + w * nf, nf) for w in range(6)]
+    if prop == "C04":
+        # "started and then stopped" holds whatever happened on the runtime before: a few cases of the abort mix, too
+        nf = 6 if tier == "quick" else 100
+        plan += [("c07", 800000 + w * nf, nf) for w in range(6)]
     if prop == "C05":
         # packets must stay whole when a device fails in mid-acquisition, too (fault scenarios of C09 under the C05 oracle)
         nf = 6 if tier == "quick" else 100
